@@ -44,6 +44,8 @@ ASSUMPTIONS = ['nested replacement fields inside a format spec ({x:{w}}) are mod
                'in the raw stream (every 10th case: hand-written + random specs built from fields); they are not the '
                'statement\'s `{expression}` fields, so they are compared with the model and not judged by the oracle', 'empty fields ({}) are not "{expression} fields": compared with the model, not judged',
                '__str__ of host values has no side effects and does not raise',
+               'field widths above 10**5 are not run on the real formatter (stream wide: model only, outcome tooWide); the '
+               'model bound Template.maxWidth = 10**6 is declared, not extracted — the real formatter has none',
                'templates with a conversion or a format spec on some field are compared with the model only (the statement '
                'speaks of `{expression}` fields); for every template the oracle demands one evaluation per field per hit '
                '(counting pure host function tick)']
@@ -54,7 +56,7 @@ LOCALS = [['n', 5], ['neg', -12], ['f', 2.5], ['s', 'text'], ['u', 'ünï😀'],
           ['lst', [3, 1, 2]], ['d', {'k': 'v', 'a:b': 'colon', 'n': 7, '}': 'brace'}], ['o', {'obj': {'name': 'bob', 'age': 3}}],
           ['t', True], ['nothing', None], ['nl', 'line1\nline2'], ['bs', 'back\\slash'], ['tup', {'tuple': [1, 'a']}],
           # locals that shadow a module global / a builtin of the same name (the local must win, as at that line)
-          ['w', 'a  b\tc'], ['wd', 8], ['p', 2], ['fmt', '*>6'], ['GSH', 'local-shadow'], ['GN2', 7], ['id', 'L:id'], ['type', 'L:type'], ['abs', 'L:abs'], ['sum', 15]]
+          ['w', 'a  b\tc'], ['wd', 8], ['p', 2], ['fmt', '*>6'], ['big', 10 ** 5], ['huge', 10 ** 12], ['astro', 10 ** 20], ['GSH', 'local-shadow'], ['GN2', 7], ['id', 'L:id'], ['type', 'L:type'], ['abs', 'L:abs'], ['sum', 15]]
 GLOBALS = {**X.SHADOW_GLOBALS, 'GNUM': 42, 'GSTR': 'glob', 'uuid': 'host-uuid', 'GSH': 'global-shadowed', 'GN2': 70000,
            'ONLYG': 'only-global', 'min': 'G:min'}
 LOCALS = LOCALS + X.SHADOW_LOCALS
@@ -86,6 +88,14 @@ RAW_NESTED = ['{s:{wd}}', '{s:>{wd}}|', '{n:{fmt}}', '{s:{fmt}.{p}}', '{s!r:{wd}
               '{s:{nope}}', '{s:{wd!r}}', '{s:{{}}}', '{s:{wd}{p}}', '{s:x{e}<{wd}}', '{nope:{wd}}', 'a{s:{wd}}b{u:^{wd}}c',
               '{s:{wd}}{}', '{}{s:{}}', '{s:{wd!x}}', '{s:{wd:>3}}', '{s:{d[k]}}', '{q!a:{wd}.{p}}', '{s:{:{}}}', '{s:{wd:{}}}',
               '{s:{ wd }}', '{s!x:{wd}}', '{s:{wd}d}', '{n:{p}{wd}}', '{s:{wd:}}', '{s:{wd}:}', '{lst:{wd + 10}}']
+# widths as frame data: up to 10**5 the real formatter is run and compared; a width / precision past the ssize_t range is
+# a cheap ValueError on both sides
+RAW_WIDE_COMPARED = ['{s:{big}}|', '{s:>100000}', '{s:{astro}}', '{s:99999999999999999999}', '{s:.99999999999999999999}',
+                     '{s:.{huge}}', '{s:.{big}}', '{s:9223372036854775808}', '{s:.9223372036854775807}', '{s:x^{big}}']
+# stream `wide`: widths the real formatter would have to allocate (10**12 characters) — the real side is NOT run; what is
+# checked is that the model answers `tooWide` at once instead of materialising the padding (the driver cannot hang)
+RAW_WIDE_MODEL_ONLY = ['{s:{huge}}', '{s:>1000001}', '{s:9223372036854775807}', '{s:*^{huge}}', '{s!r:{huge}.{p}}',
+                       'a{s:{wd}}b{s:{huge}}', '{s:1000000000000}']
 SPEC_BITS = ['{wd}', '>', '<', '^', '{p}', '.', '{fmt}', '5', '{e}', '{nope}', '{}', '{0}', '*', '{wd!s}', '{p:1}', 's', '{n + 1}']
 
 
@@ -217,8 +227,10 @@ def gen(rng, tier):
         if k % 5 == 0:
             c['kind'] = 'raw'
             r = rng.random()
-            if k % 10 == 0:
-                c['tpl'] = rng.choice(RAW_NESTED) if r < 0.5 else gen_nested(rng)
+            if k % 50 == 0:
+                c.update(stream='wide', tpl=rng.choice(RAW_WIDE_MODEL_ONLY), via='mock', logger='rec')
+            elif k % 10 == 0:
+                c['tpl'] = rng.choice(RAW_NESTED + RAW_WIDE_COMPARED) if r < 0.5 else gen_nested(rng)
             elif r < 0.35:
                 c['tpl'] = rng.choice(RAW_HAND)
             elif r < 0.7:
@@ -247,6 +259,8 @@ def corpus():
         dict(b, kind='tpl', mode='log', logger='falsy', segs=[['lit', 'n='], ['field', 'n', None, '']]),
         dict(b, kind='tpl', logger='falsy', cfg={'fire_count': '-1', 'fire_period': '0'}, hits=[5, 6],
              segs=[['lit', 's='], ['field', 's', None, '']]),
+        dict(b, kind='raw', stream='wide', tpl='{s:{huge}}'), dict(b, kind='raw', stream='wide', tpl='{s:>1000001}'),
+        dict(b, kind='raw', tpl='{s:{big}}|'), dict(b, kind='raw', tpl='{s:{astro}}'), dict(b, kind='raw', tpl='{s:.{huge}}'),
         dict(b, kind='raw', tpl='{s:>{wd}}|{n:{fmt}}'), dict(b, kind='raw', tpl='{s:{wd:{p}}}'), dict(b, kind='raw', tpl='{:{}}'),
         dict(b, kind='raw', tpl='{n'), dict(b, kind='raw', tpl='}'), dict(b, kind='raw', tpl='{n:d}'),
         dict(b, kind='raw', mode='log', tpl='{}{0}'), dict(b, kind='tpl', segs=[]),
@@ -530,6 +544,8 @@ def run_impl(case):
         return run_conc(case)
     if case['kind'] == 'multi':
         return run_multi(case)
+    if case.get('stream') == 'wide':
+        return {'hits': [], 'model_only': True}      # the real formatter would allocate the width: not run
     default = case['logger'] == 'default'
     plugins = []
     cap = None
@@ -799,6 +815,8 @@ def has_format_part(segs):
 
 
 def oracle(case, obs):
+    if case.get('stream') == 'wide':
+        return []           # the real formatter is not run for these widths (see run_impl)
     if case['kind'] == 'multi':
         return oracle_multi(case, obs)
     v = []
@@ -942,6 +960,10 @@ def compare(case, obs, resp):
         for i, (h, r) in enumerate(zip(obs['hits'], resp['threads'])):
             d += ['thread %d: %s' % (i, x) for x in compare_one(case, h, r)]
         return d
+    if case.get('stream') == 'wide':
+        err = resp['rendered'].get('err')
+        return [] if err == 'tooWide' else [f'wide template {case["tpl"]!r}: the model answers {resp["rendered"]!r}, '
+                                           f'expected the outcome tooWide (width beyond Template.maxWidth)']
     perm = permitted(case)
     first = next((h for h, ok in zip(obs['hits'], perm) if ok), None)
     if first is None:
@@ -951,8 +973,10 @@ def compare(case, obs, resp):
 
 def compare_one(case, first, resp):
     r = resp['rendered']
-    if r.get('err') == 'unsupported':
-        return []
+    if r.get('err') == 'tooWide':
+        # a width beyond the model's declared bound (Template.maxWidth): the real formatter would allocate it — such
+        # templates are generated only in the labelled `wide` stream, whose real side is not run (see run_impl)
+        return [] if case.get('stream') == 'wide' else ['model answers tooWide for a template outside the wide stream']
     d = []
     if case['logger'] != 'default':
         exp_calls = [[v for _, v in call] for call in resp['logger']]
@@ -984,6 +1008,8 @@ def compare_one(case, first, resp):
 
 
 def label(case, obs):
+    if case.get('stream') == 'wide':
+        return 'wide/model-only'
     if case['kind'] == 'multi':
         return 'multi/%s/%s/faults%d' % (case['install'], '-'.join(t['kind'] for t in case['tps']),
                                          min(2, len(case['push_fail']) + len(case['log_fail'])))
@@ -1004,6 +1030,8 @@ def label(case, obs):
 
 
 def nontrivial(case, obs):
+    if case.get('stream') == 'wide':
+        return True
     if case['kind'] == 'multi':
         # a failing result is followed by a message that must still be delivered
         first_fault = min(case['push_fail'] + case['log_fail'], default=None)
@@ -1018,6 +1046,8 @@ def nontrivial(case, obs):
 
 
 def shrink(case):
+    if case.get('stream') == 'wide':
+        return
     if case['kind'] == 'multi':
         for key in ('push_fail', 'log_fail'):
             for x in case[key]:
